@@ -192,7 +192,7 @@ def _run(chk, wd, proved):
             if len(toks) >= 3 and not is_hostile and quick and (si + STARTS.index(start)) % 2:
                 continue
             variants = [(hk, False) for hk in ((0, 1) if b'!X' in toks else (0,))]
-            if b'\x1b' in stream or is_hostile or (si + STARTS.index(start)) % 4 == 0:
+            if b'\x1b' in stream or is_hostile or (si + STARTS.index(start)) % 7 == 0:
                 variants.append((0, True))       # the same bytes with options.strip_ansi = True
             for hk, strip in variants:
                 cur['strip'] = strip
